@@ -1505,6 +1505,25 @@ func (data *Data) CloneSqlNodes() []DataNode {
 	return nis
 }
 
+// CloneReplicaGroups returns a copy of the replica groups of every database.
+func (data *Data) CloneReplicaGroups() map[string][]ReplicaGroup {
+	if data.ReplicaGroups == nil {
+		return nil
+	}
+	rgs := make(map[string][]ReplicaGroup, len(data.ReplicaGroups))
+	for db, groups := range data.ReplicaGroups {
+		cloned := make([]ReplicaGroup, len(groups))
+		for i := range groups {
+			cloned[i] = groups[i]
+			if groups[i].Peers != nil {
+				cloned[i].Peers = append([]Peer(nil), groups[i].Peers...)
+			}
+		}
+		rgs[db] = cloned
+	}
+	return rgs
+}
+
 // CloneMetaNodes returns a copy of the NodeInfo.
 func (data *Data) CloneMetaNodes() []NodeInfo {
 	if data.MetaNodes == nil {
@@ -2977,6 +2996,8 @@ func (data *Data) Clone() *Data {
 	// Copy nodes.
 	other.DataNodes = data.CloneDataNodes()
 	other.MetaNodes = data.CloneMetaNodes()
+	other.SqlNodes = data.CloneSqlNodes()
+	other.ReplicaGroups = data.CloneReplicaGroups()
 
 	other.Databases = data.CloneDatabases()
 	other.Streams = data.CloneStreams()
